@@ -259,6 +259,31 @@ func exportImportCheck(e *Env, st *Stats, modules []string, replay any) {
 }
 
 // stable class of an import failure: the error text without addresses and numbers
+// importKeepsSequence: C02 over a restart from exported state: the proposal sequence (and with it the set of
+// consumed votes), the epoch and the proposer survive export -> InitGenesis of the relayer module.
+func importKeepsSequence(e *Env, st *Stats, replay any) {
+	st.Chk("C02-sequence-survives-import")
+	f := NewEnv()
+	f.Ctx = f.Ctx.WithBlockHeader(e.Ctx.BlockHeader())
+	msg := guard("relayer export/import", func() {
+		raw := e.Cdc.MustMarshalJSON(relayermodule.ExportGenesis(e.Ctx, e.Relayer))
+		var g relayertypes.GenesisState
+		f.Cdc.MustUnmarshalJSON(raw, &g)
+		relayermodule.InitGenesis(f.Ctx, f.Relayer, g)
+	})
+	if msg != "" {
+		return // C18's business
+	}
+	s0, _ := e.Relayer.Sequence.Peek(e.Ctx)
+	s1, _ := f.Relayer.Sequence.Peek(f.Ctx)
+	r0, _ := e.Relayer.Relayer.Get(e.Ctx)
+	r1, _ := f.Relayer.Relayer.Get(f.Ctx)
+	if s0 != s1 || r0.Epoch != r1.Epoch || r0.Proposer != r1.Proposer {
+		st.Violate("C02", "import", "vote-context-lost-on-import", fmt.Sprintf("after export and InitGenesis of the relayer module the vote context is (sequence %d, epoch %d, proposer %s), it was (%d, %d, %s): votes consumed before are acceptable again",
+			s1, r1.Epoch, r1.Proposer, s0, r0.Epoch, r0.Proposer), replay)
+	}
+}
+
 func importErrClass(msg string) string {
 	msg = strings.ToValidUTF8(msg, "")
 	if i := strings.Index(msg, "genesis does not validate: "); i >= 0 {
